@@ -1,5 +1,5 @@
 (** * C16 — decode / encode of tile matrix set documents: witnesses about the code as it stands
-      (F6b, F6c) and the built-in documents by computation *)
+      (F6b) and the built-in documents by computation *)
 From Coq Require Import ZArith QArith String Ascii List Bool Lia.
 From Texel Require Import Tms.Json Tms.Model.
 From Texel.Gen Require Import ConstsGen TmsData.
@@ -25,15 +25,21 @@ Definition doc_empty_kw : json := doc_with (tm_with (jn 256 0) (JArr [jn 1 0; jn
 
 Definition the_tm (t : tms) : option tileMatrix := find_tm 0 (t_matrices t).
 
-(** F6c: a 3-element pointOfOrigin makes the decoder panic; a 1-element one is accepted, the missing coordinate is 0 *)
-Lemma decode_panics : decodeTMS doc_origin3 = Panic.
-Proof. vm_compute. reflexivity. Qed.
+(** regression F6c (repaired in /repo 909171c): a pointOfOrigin with 3 elements used to panic inside the decoding
+    library, one with 1 element used to be accepted with the missing coordinate read as 0; both are errors now, and
+    so are null, non-number elements and non-arrays *)
+Definition doc_origin_null : json := doc_with (tm_with (jn 256 0) JNull []).
+Definition doc_origin_str : json := doc_with (tm_with (jn 256 0) (JArr [JStr "a"; jn 2 0]) []).
+Definition doc_bbox3 : json :=
+  JObj [("crs", JStr "http://www.opengis.net/def/crs/EPSG/0/28992");
+        ("boundingBox", JObj [("lowerLeft", JArr [jn 1 0; jn 2 0; jn 3 0]); ("upperRight", JArr [jn 3 0; jn 4 0]);
+                              ("crs", JStr "urn:ogc:def:crs:EPSG::28992")]);
+        ("tileMatrices", JArr [tm_with (jn 256 0) (JArr [jn 1 0; jn 2 0]) []])].
 
-Lemma decode_panics_ex : exists doc, decodeTMS doc = Panic.
-Proof. exists doc_origin3. exact decode_panics. Qed.
-
-Lemma short_origin_accepted : exists t m, decodeTMS doc_origin1 = Ok t /\ the_tm t = Some m /\ tm_origin m = Some (Dec 1 0, Dec 0 0).
-Proof. eexists. eexists. split; [vm_compute; reflexivity|]. split; vm_compute; reflexivity. Qed.
+Lemma regression_F6c : decodeTMS doc_origin3 = Error /\ decodeTMS doc_origin1 = Error /\
+  decodeTMS doc_origin_null = Error /\ decodeTMS doc_origin_str = Error /\ decodeTMS doc_bbox3 = Error /\
+  exists t, decodeTMS doc_ok = Ok t.
+Proof. repeat split; try (vm_compute; reflexivity). eexists. vm_compute. reflexivity. Qed.
 
 (** F6b: tileWidth -1 and 256.5 are accepted (wrapped to 2^64 - 1, truncated to 256) *)
 Lemma negative_width_accepted : exists t m, decodeTMS doc_negative = Ok t /\ the_tm t = Some m /\ tm_tileWidth m = 2 ^ 64 - 1.
